@@ -951,6 +951,11 @@ class FnTranslator:
             return '("%s " ++ toString %s)' % (self.u.error_ctors[e[1][1][-1]], term)
         if e[0] == "mcall" and e[2] == "into":
             return self.err_tag(e[1], env, pre)
+        if e[0] == "mcall" and e[2] == "unwrap_err" and e[1][0] == "path" and len(e[1][1]) == 1 \
+                and env.get(e[1][1][0], (None,))[0] == "captured":
+            t = self.fresh("t")        # (b0507) the error of a captured Result is raised again
+            pre.append(("bind", t, MCall("Rs.unwrapErr %s" % lid(e[1][1][0]))))
+            return t
         # util/status.rs: `Status::internal(msg)`, `invalid_argument(msg)`, … -- the error class is the constructor, the
         # message is dropped
         if e[0] == "call" and e[1][0] == "path" and "::".join(e[1][1]) in STATUS_ERRS:
@@ -1185,6 +1190,10 @@ class FnTranslator:
                 pre[-1] = ("bind", "_", pre[-1][2])
                 return self.wrap(pre, self.stmts(rest, tail, env2, fin))
             if e[0] in ("if", "iflet", "match") and self.has_jump(e):
+                if pat[0] == "pvar" and not getattr(self, "in_loop", False):
+                    # (b0507) `let x = if c { a } else { …; return e };`: the rest of the function is continued in every
+                    # branch that yields a value (as for `if` statements with `return`), `x` bound to that value
+                    return self.control(e, env, lambda env2, t: self.stmts([("let", pat, ty, t, line)] + list(rest), tail, env2, fin))
                 raise RsError("return inside a let initialiser (line %d)" % line)
             if pat[0] == "pvar" and e[0] == "mcall" and e[2] in ("unwrap", "expect") and e[1][0] == "mcall" \
                     and e[1][2] == "try_into" and not e[1][4]:
@@ -1214,7 +1223,22 @@ class FnTranslator:
                 return self.let_inferred(pat, e, env, rest, tail, fin, line)    # e.g. `let mut min = 1 << 48;`
             pre = []
             self.last_guard = False
-            term, t = self.expr(e, env, pre, want)
+            try:
+                term, t = self.expr(e, env, pre, want)
+            except RsError as ex:
+                if "Result-valued call used as a value" not in str(ex) or pat[0] != "pvar" or ty is not None \
+                        or e[0] not in ("call", "mcall"):
+                    raise
+                # (b0507) `let r = f(..);` with a `Result`-valued call of a translated function: the `Err` is captured as a
+                # value (`Rs.capture`; a panic / overflow of the callee still propagates here); `r` can then only be asked
+                # `is_ok() / is_err()` and re-raised by `Err(r.unwrap_err())`
+                pre = []
+                r = self.call_any(e, env, pre, want_result=True)
+                if r is None or r[2] != "comp": raise
+                env2 = dict(env)
+                lp = self.bind_pat(pat, ("captured", r[1]), env2)
+                pre.append(("bind", lp, MCall("Rs.capture (%s)" % r[0])))
+                return self.wrap(pre, self.stmts(rest, tail, env2, fin))
             if self.last_guard and pat[0] == "pvar":
                 # the value of a function that returns a MutexGuard: a copy here, so writes through it would be lost
                 self.guard_vars = getattr(self, "guard_vars", set()) | {pat[1]}
@@ -1230,6 +1254,10 @@ class FnTranslator:
             # rename the last temporary instead of an extra let
             if pre and pre[-1][0] in ("bind", "let") and pre[-1][1] == term and pat[0] == "pvar":
                 pre[-1] = (pre[-1][0], lp, pre[-1][2])
+            elif t[0] == "struct" and term.startswith("{ ") and t[1] in getattr(self.u, "ascribe_let_structs", ()):
+                # (b0507) a struct literal bound by `let` whose type Lean cannot infer from a later use (a local struct
+                # declared as a view): ascribed
+                pre.append(("let", lp, "(%s : %s)" % (term, self.u.lt(t))))
             else:
                 pre.append(("let", lp, term))
             pre += self.flush_patlets()
@@ -2485,6 +2513,11 @@ class FnTranslator:
             if op in ("==", "!="):
                 self.note_eq(at)
                 return "(%s %s %s)" % (a, op, b), BOOL
+            if at[0] == "opt" and is_uint(at[1]):
+                # (b0507) derived `PartialOrd` of `Option<uN>`: `None` is below every `Some`, `Some`s by their content
+                t = {"<": "(Rs.optLt %s %s)" % (a, b), ">": "(Rs.optLt %s %s)" % (b, a),
+                     "<=": "(!(Rs.optLt %s %s))" % (b, a), ">=": "(!(Rs.optLt %s %s))" % (a, b)}[op]
+                return t, BOOL
             if not is_int(at): raise RsError("ordering comparison on a non-integer type %r" % (at,))
             lop = {"<": "<", "<=": "≤", ">": ">", ">=": "≥"}[op]
             return "(decide (%s %s %s))" % (a, lop, b), BOOL
@@ -3139,6 +3172,12 @@ class FnTranslator:
                 pre.append(("bind", v, MCall("Rs.unwrapOk (%s)" % r0[0])))
                 return v, r0[1], "val"
             self.n = n0
+        if recv[0] == "path" and len(recv[1]) == 1 and env.get(recv[1][0], (None,))[0] == "captured":
+            # (b0507) a captured `Result` value (see the `let` rule)
+            x = lid(recv[1][0])
+            if m == "is_ok" and not args: return "(match %s with | Except.ok _ => true | Except.error _ => false)" % x, BOOL, "val"
+            if m == "is_err" and not args: return "(match %s with | Except.ok _ => false | Except.error _ => true)" % x, BOOL, "val"
+            raise RsError("method .%s on a captured Result is outside the subset" % m)
         if recv == ("path", ["self"]) and ("self." + m) in self.u.externals:
             return self.call_external("self." + m, args, env, pre)
         if recv == ("path", ["self"]) and self.impl and "%s.%s" % (self.impl, m) in self.u.externals and "self" in env:
